@@ -1000,6 +1000,291 @@ Proof.
   intros [P _]. apply Permutation_length in P. vm_compute in P. discriminate P.
 Qed.
 
+(** * clause 306 needs [EndsListed]: a [net_fine] network that satisfies [services_listed] but has two start
+      depot nodes of the same depot index, only one of them in the depot table; the schedule is "empty, then
+      spawn a vehicle for the path [SD 2; SV 3; ED 1]".  The vehicle starts at SD 2 (Station 1) and needs a
+      dead-head trip to the service trip at Station 0; the checker reads start depot 0 back as SD 0 (Station 0)
+      and expects no dead-head trip. *)
+Definition tripY : service_trip :=
+  {| st_type := 0; st_origin := Station 0; st_dest := Station 0; st_dep := Point 0; st_arr := Point 1;
+     st_dist := Dist 0; st_pass := 1; st_seated := 0; st_limit := None |}.
+Definition dpY : depot := {| dp_idx := 0; dp_loc := Station 0; dp_total := 5; dp_allowed := [(0, None)] |}.
+Definition nwY : network :=
+  {| nw_nodes := [(SD 0, NStart {| dn_depot := 0; dn_loc := Station 0 |});
+                  (SD 2, NStart {| dn_depot := 0; dn_loc := Station 1 |});
+                  (ED 1, NEnd {| dn_depot := 0; dn_loc := Station 0 |});
+                  (SV 3, NService tripY)];
+     nw_depots := [(0, (dpY, SD 0, ED 1))]; nw_overflow := (0, SD 0, ED 1);
+     nw_service := [(0, [SV 3])]; nw_maint := []; nw_sdepots := [SD 0; SD 2]; nw_edepots := [ED 1];
+     nw_all_by_start := [(Earliest, SD 0); (Earliest, SD 2); (Point 0, SV 3); (Latest, ED 1)];
+     nw_type_by_start := [(0, [(Earliest, SD 0); (Earliest, SD 2); (Point 0, SV 3); (Latest, ED 1)])];
+     nw_type_by_end := [(0, [(Earliest, SD 0); (Earliest, SD 2); (Point 1, SV 3); (Latest, ED 1)])];
+     nw_params := {| p_forbid := false; p_min := 0; p_dht := 0; p_maxdist := 0;
+                     c_staff := 0; c_service := 0; c_maint := 0; c_dh := 0; c_idle := 0 |};
+     nw_nlocs := 2; nw_dh := [[(Dist 0, Len 0); (Dist 0, Len 0)]; [(Dist 0, Len 0); (Dist 0, Len 0)]];
+     nw_types := [{| vt_cap := 1; vt_seats := 1; vt_limit := None |}];
+     nw_nservice := 1; nw_planning := Len 86400 |}.
+Definition tY : tour :=
+  {| t_nodes := [SD 2; SV 3; ED 1]; t_dummy := false; t_vm := false; t_useful := Len 1; t_sdist := Dist 0;
+     t_ddist := Dist 0; t_costs := 0 |}.
+Definition sY : schedule :=
+  {| s_vehicles := [(Veh 0, 0)]; s_tours := [(Veh 0, tY)];
+     s_trans := [(0, {| tr_cycles := [([Veh 0], 0)]; tr_viol := 0; tr_count := 0; tr_lookup := [(Veh 0, O)];
+                        tr_empty := [] |})];
+     s_forms := [(SV 3, [(Veh 0, 0)])]; s_usage := [((0, 0), ([Veh 0], [Veh 0]))]; s_dummies := [];
+     s_counter := 1; s_ids := [(0, [Veh 0])]; s_dummy_ids := [];
+     s_unserved := (0, 0); s_viol := 0; s_costs := 0 |}.
+
+Lemma sY_history :
+  exists s0, empty_schedule nwY = Ok s0 /\ spawn_vehicle_for_path nwY s0 0 [SD 2; SV 3; ED 1] = Ok (sY, Veh 0).
+Proof. eexists. split; vm_compute; reflexivity. Qed.
+
+Lemma nwY_fine : net_fine nwY.
+Proof.
+  split; [vm_compute; reflexivity|]. split; [intros m []|].
+  change (coverable_nodes nwY) with [SV 3]. constructor; [intros []|constructor].
+Qed.
+Lemma nwY_listed : services_listed nwY.
+Proof.
+  split.
+  - change (flat_map (service_nodes nwY) (type_ids nwY)) with [SV 3].
+    change (all_service_nodes nwY) with [SV 3]. apply Permutation_refl.
+  - intros ty n Hty Hn. change (type_ids nwY) with [0] in Hty. destruct Hty as [<-|[]].
+    change (service_nodes nwY 0) with [SV 3] in Hn. destruct Hn as [<-|[]]. reflexivity.
+Qed.
+
+Lemma vgetY {A} (x : A) v y : vget v [(Veh 0, x)] = Some y -> v = Veh 0 /\ y = x.
+Proof.
+  unfold vget. cbn [assoc]. destruct (vid_eqb v (Veh 0)) eqn:E; [|discriminate].
+  apply vid_eqb_eq in E. intros H; inversion H. auto.
+Qed.
+
+Lemma iterY ty : vehicles_iter sY ty = if ty =? 0 then [Veh 0] else [].
+Proof. unfold vehicles_iter, zget. cbn [s_ids sY assoc]. destruct (ty =? 0); reflexivity. Qed.
+
+Lemma sY_tours : ToursOK nwY sY.
+Proof.
+  split.
+  - intros v t H. cbn [s_tours sY] in H. apply vgetY in H. destruct H as [-> ->].
+    exists 0. split; [reflexivity|]. vm_compute. reflexivity.
+  - intros d t H. discriminate H.
+Qed.
+
+Lemma sY_listing : ListingOK nwY sY.
+Proof.
+  split; cbn [s_vehicles s_tours s_dummies s_dummy_ids sY keys map fst].
+  - constructor; [intros []|constructor].
+  - constructor; [intros []|constructor].
+  - constructor.
+  - intros v; tauto.
+  - intros v [<-|[]]. reflexivity.
+  - intros v [].
+  - reflexivity.
+  - intros v ty. rewrite iterY. split.
+    + intros H. apply vgetY in H. destruct H as [-> ->]. left; reflexivity.
+    + destruct (Z.eqb_spec ty 0) as [->|Hne]; [|intros []]. intros [<-|[]]. reflexivity.
+  - intros ty. rewrite iterY. destruct (ty =? 0); repeat constructor.
+  - intros d; tauto.
+  - constructor.
+Qed.
+
+Lemma ngetY n f : nget n (s_forms sY) = Some f -> n = SV 3 /\ f = [(Veh 0, 0)].
+Proof.
+  unfold nget. cbn [s_forms sY assoc]. destruct (nid_eqb n (SV 3)) eqn:E; [|discriminate].
+  apply nid_eqb_eq in E. intros H; inversion H. auto.
+Qed.
+
+Lemma sY_forms : FormsOK nwY sY.
+Proof.
+  split.
+  - cbn [s_forms sY keys map fst]. constructor; [intros []|constructor].
+  - intros n. cbn [s_forms sY keys map fst]. change (coverable_nodes nwY) with [SV 3]. tauto.
+  - intros n f H. apply ngetY in H. destruct H as [-> ->]. cbn [map fst]. constructor; [intros []|constructor].
+  - intros n f v ty H. apply ngetY in H. destruct H as [-> ->]. split.
+    + intros [E|[]]. inversion E; subst v ty. split; [reflexivity|]. exists tY. split; [reflexivity|].
+      cbn [t_nodes tY]. right; left; reflexivity.
+    + intros [H _]. cbn [s_vehicles sY] in H. apply vgetY in H. destruct H as [-> ->]. left; reflexivity.
+Qed.
+
+Lemma usageY d ty : usage_at sY d ty = if pair_eqb (d, ty) (0, 0) then ([Veh 0], [Veh 0]) else ([], []).
+Proof. unfold usage_at, uget. cbn [s_usage sY assoc]. destruct (pair_eqb (d, ty) (0, 0)); reflexivity. Qed.
+
+Lemma sY_usage : UsageOK nwY sY.
+Proof.
+  split.
+  - cbn [s_usage sY keys map fst]. constructor; [intros []|constructor].
+  - intros d ty. rewrite usageY. destruct (pair_eqb (d, ty) (0, 0)); cbn [fst snd]; split; repeat constructor; intros [].
+  - intros d ty v. rewrite usageY. unfold SchedStruct.starts_at. destruct (pair_eqb (d, ty) (0, 0)) eqn:E; cbn [fst].
+    + apply pair_eqb_eq in E. inversion E; subst d ty. split.
+      * intros [<-|[]]. exists tY. repeat split; reflexivity.
+      * intros (t & H & _). cbn [s_vehicles sY] in H. apply vgetY in H. destruct H as [-> _]. left; reflexivity.
+    + split; [intros []|]. intros (t & H1 & H2 & H3). cbn [s_vehicles s_tours sY] in H1, H2.
+      apply vgetY in H1. apply vgetY in H2. destruct H1 as [-> ->]. destruct H2 as [_ ->].
+      change (get_depot_idx nwY (first_node tY)) with 0 in H3. subst d.
+      rewrite pair_eqb_refl in E. discriminate.
+  - intros d ty v. rewrite usageY. unfold SchedStruct.ends_at. destruct (pair_eqb (d, ty) (0, 0)) eqn:E; cbn [snd].
+    + apply pair_eqb_eq in E. inversion E; subst d ty. split.
+      * intros [<-|[]]. exists tY. repeat split; reflexivity.
+      * intros (t & H & _). cbn [s_vehicles sY] in H. apply vgetY in H. destruct H as [-> _]. left; reflexivity.
+    + split; [intros []|]. intros (t & H1 & H2 & H3). cbn [s_vehicles s_tours sY] in H1, H2.
+      apply vgetY in H1. apply vgetY in H2. destruct H1 as [-> ->]. destruct H2 as [_ ->].
+      change (get_depot_idx nwY (last_node tY)) with 0 in H3. subst d.
+      rewrite pair_eqb_refl in E. discriminate.
+Qed.
+
+Lemma checkY : exists out, render nwY sY = Ok out /\ check_C03 nwY out = [306].
+Proof. eexists. split; vm_compute; reflexivity. Qed.
+
+(* so clause 306 is not a consequence of the stated hypotheses even together with [services_listed] *)
+Theorem render_C03_306_needs_ends_listed :
+  ~ (forall nw, net_fine nw -> services_listed nw ->
+     forall s out, ToursOK nw s -> ListingOK nw s -> FormsOK nw s -> UsageOK nw s ->
+       render nw s = Ok out -> check_C03 nw out = []).
+Proof.
+  intros H. destruct checkY as (out & Rn & C).
+  specialize (H nwY nwY_fine nwY_listed sY out sY_tours sY_listing sY_forms sY_usage Rn).
+  rewrite C in H. discriminate H.
+Qed.
+Lemma sY_not_ends_listed : ~ EndsListed nwY sY.
+Proof. intros H. destruct (H (Veh 0) tY eq_refl) as [H1 _]. vm_compute in H1. discriminate H1. Qed.
+
+(** * [services_listed] holds for every network built by [load] from a valid instance *)
+From RS Require Import LoadStmts LoadFacts.
+
+Lemma perm_flat_map {A B} (f g : A -> list B) l :
+  (forall x, In x l -> Permutation (f x) (g x)) -> Permutation (flat_map f l) (flat_map g l).
+Proof.
+  induction l as [|a l IH]; intros H; cbn [flat_map]; [constructor|].
+  apply Permutation_app; [apply H; left; reflexivity | apply IH; intros x Hx; apply H; right; exact Hx].
+Qed.
+
+Lemma flat_map_ext_in' {A B} (f g : A -> list B) l :
+  (forall x, In x l -> f x = g x) -> flat_map f l = flat_map g l.
+Proof.
+  induction l as [|a l IH]; intros H; cbn [flat_map]; [reflexivity|].
+  rewrite (H a (or_introl eq_refl)), IH; [reflexivity|]. intros x Hx. apply H. right; exact Hx.
+Qed.
+
+Lemma map_flat_map' {A B C} (h : B -> C) (g : A -> list B) l :
+  map h (flat_map g l) = flat_map (fun x => map h (g x)) l.
+Proof. induction l as [|a l IH]; cbn [flat_map map]; [reflexivity|]. now rewrite map_app, IH. Qed.
+
+Definition entry_type (x : node_id * node) : Z := match snd x with NService s => st_type s | _ => 0 end.
+
+Theorem load_services_listed :
+  forall i perm nw, valid_instance_b i = true -> load i perm = Ok nw -> services_listed nw.
+Proof.
+  intros i perm nw V H. destruct (load_inv i perm nw V H) as (trips & n0 & p1 & -> & Hn0 & Rr & G & Ne).
+  set (p0 := Len n0). split.
+  - change (type_ids (Lnet i perm trips p0 p1)) with (tids i).
+    rewrite (flat_map_ext_in' _ (fun ty => Lsrt i perm trips p0 (Lsvc_list i perm trips ty)))
+      by (intros ty Hty; apply Lservice_nodes; exact Hty).
+    etransitivity; [|symmetry; apply Lall_service].
+    transitivity (flat_map (Lsvc_list i perm trips) (tids i)).
+    + apply perm_flat_map. intros ty _. apply sort_by_perm.
+    + unfold Lsvc_list. rewrite <- map_flat_map'.
+      set (E := Lsvc_entries i perm trips).
+      rewrite (flat_map_ext_in' _ (fun t => filter (fun x => entry_type x =? t) E)).
+      2:{ intros t _. apply filter_ext_in. intros [id n] Hx. apply Lsvc_entries_in in Hx.
+          destruct Hx as (s0 & -> & _). reflexivity. }
+      unfold tids, ntypes. rewrite partition_perm.
+      2:{ intros [id n] Hx. apply Lsvc_entries_in in Hx. destruct Hx as (s0 & -> & Hs). unfold entry_type; cbn [snd].
+          apply Ltbt_in in Hs. apply G in Hs. destruct Hs as [Hs _]. lia. }
+      rewrite filter_all_true.
+      2:{ intros [id n] Hx. apply Lsvc_entries_in in Hx. destruct Hx as (s0 & -> & Hs). unfold entry_type; cbn [snd].
+          apply Ltbt_in in Hs. apply G in Hs. destruct Hs as [Hs _]. apply Z.ltb_lt. lia. }
+      unfold E, Lsvc_entries. rewrite (map_fst_combine _ _ (Lsvc_len i perm trips)). reflexivity.
+  - intros ty n Hty Hn. change (type_ids (Lnet i perm trips p0 p1)) with (tids i) in Hty.
+    rewrite (Lservice_nodes i perm trips p0 p1 ty Hty) in Hn. unfold Lsrt in Hn. apply sort_by_in in Hn.
+    unfold Lsvc_list in Hn. apply in_map_iff in Hn. destruct Hn as ([id x] & <- & Hx).
+    apply filter_In in Hx. destruct Hx as [Hx Hp]. cbn [fst].
+    destruct (Lsvc_entries_in _ _ _ _ _ Hx) as (s0 & -> & _).
+    unfold vehicle_type_for. rewrite (Lnd i perm trips p0 id (NService s0) p1).
+    + apply Z.eqb_eq. exact Hp.
+    + unfold Lnodes. rewrite !in_app_iff. right; left. exact Hx.
+Qed.
+
+(** * the network half of [EndsListed]: the depot table of a loaded network maps the depot index of every listed
+      depot node back to that node; together with "tours start and end at listed depot nodes" this gives
+      [EndsListed] *)
+Definition depot_table_ok (nw : network) : Prop :=
+  (forall n, In n (nw_sdepots nw) -> get_start_depot_node nw (get_depot_idx nw n) = n) /\
+  (forall n, In n (nw_edepots nw) -> get_end_depot_node nw (get_depot_idx nw n) = n).
+Definition EndsKnown (nw : network) (s : schedule) : Prop :=
+  forall v t, vget v (s_tours s) = Some t -> In (first_node t) (nw_sdepots nw) /\ In (last_node t) (nw_edepots nw).
+
+Lemma ends_listed_of_known nw s : depot_table_ok nw -> EndsKnown nw s -> EndsListed nw s.
+Proof. intros [D1 D2] K v t Ht. destruct (K v t Ht) as [K1 K2]. split; [apply D1 | apply D2]; assumption. Qed.
+
+Lemma make_depots_idx i perm x :
+  map dp_idx (make_depots i perm x) = map Z.of_nat (seq 0 (length (make_depots i perm x))).
+Proof.
+  rewrite Ldepots0_length. unfold make_depots. destruct (i_depots i) as [ds|]; rewrite map_map.
+  - rewrite <- (map_combine_seq Z.of_nat ds 0). apply map_ext. intros [k d]; reflexivity.
+  - rewrite <- (map_combine_seq Z.of_nat perm 0). apply map_ext. intros [k d]; reflexivity.
+Qed.
+
+Lemma Ldepots_idx i perm trips :
+  map dp_idx (Ldepots i perm trips) = map Z.of_nat (seq 0 (length (Ldepots i perm trips))).
+Proof.
+  unfold Ldepots, Ldepots0. rewrite map_app, app_length, make_depots_idx. cbn [map length].
+  rewrite seq_app, map_app. cbn [seq map plus]. reflexivity.
+Qed.
+
+Lemma dnodes_lookup (deps : list depot) : forall s0,
+  map dp_idx deps = map Z.of_nat (seq s0 (length deps)) ->
+  forall k d, In (k, d) (combine (seq s0 (length deps)) deps) ->
+    dp_idx d = Z.of_nat k /\
+    assoc Z.eqb (dp_idx d)
+      (map (fun '(d, s, en) => (dp_idx d, (d, s, en)))
+         (map (fun '(k, d) => (d, SD (2 * Z.of_nat k), ED (2 * Z.of_nat k + 1)))
+            (combine (seq s0 (length deps)) deps))) = Some (d, SD (2 * Z.of_nat k), ED (2 * Z.of_nat k + 1)).
+Proof.
+  induction deps as [|d0 l IH]; intros s0 E k d Hin; [destruct Hin|].
+  cbn [length seq map] in E. inversion E as [[E0 E1]].
+  cbn [length seq combine map assoc] in *. destruct Hin as [Hin|Hin].
+  - inversion Hin; subst k d. rewrite Z.eqb_refl. split; [exact E0|reflexivity].
+  - destruct (IH (S s0) E1 k d Hin) as [Ik A]. split; [exact Ik|].
+    apply in_combine_l, in_seq in Hin.
+    destruct (Z.eqb_spec (dp_idx d) (dp_idx d0)) as [Q|Q]; [lia|]. exact A.
+Qed.
+
+Theorem load_depot_table_ok :
+  forall i perm nw, valid_instance_b i = true -> load i perm = Ok nw -> depot_table_ok nw.
+Proof.
+  intros i perm nw V H. destruct (load_inv i perm nw V H) as (trips & n0 & p1 & -> & Hn0 & Rr & G & Ne).
+  set (p0 := Len n0).
+  assert (K : forall k d, In (k, d) (combine (seq 0 (length (Ldepots i perm trips))) (Ldepots i perm trips)) ->
+    In (d, SD (2 * Z.of_nat k), ED (2 * Z.of_nat k + 1)) (Ldnodes i perm trips)).
+  { intros k d Hk. unfold Ldnodes. apply in_map_iff. exists (k, d). split; [reflexivity|exact Hk]. }
+  split; intros n Hn.
+  - cbn [nw_sdepots Lnet] in Hn. unfold Lsrt in Hn. apply sort_by_in in Hn. unfold Lsdeps in Hn.
+    apply in_map_iff in Hn. destruct Hn as ([[d s0] en] & <- & Hd). unfold Ldnodes in Hd.
+    apply in_map_iff in Hd. destruct Hd as ([k d'] & Ed & Hk). injection Ed as E1 E2 E3; subst d' s0 en. cbv beta iota.
+    destruct (dnodes_lookup (Ldepots i perm trips) 0 (Ldepots_idx i perm trips) k d Hk) as [Ik A].
+    assert (Nd : nd (Lnet i perm trips p0 p1) (SD (2 * Z.of_nat k)) = NStart {| dn_depot := dp_idx d; dn_loc := dp_loc d |}).
+    { apply Lnd. unfold Lnodes. rewrite !in_app_iff. left. unfold Ldentries. apply in_flat_map.
+      exists (d, SD (2 * Z.of_nat k), ED (2 * Z.of_nat k + 1)). split; [apply K; exact Hk|left; reflexivity]. }
+    change (get_start_depot_node (Lnet i perm trips p0 p1)
+              (get_depot_idx (Lnet i perm trips p0 p1) (SD (2 * Z.of_nat k))) = SD (2 * Z.of_nat k)).
+    unfold get_depot_idx. rewrite Nd. cbn [dn_depot]. unfold get_start_depot_node, depot_entry.
+    cbn [nw_depots Lnet]. unfold Ldentry, Ldnodes. rewrite A. reflexivity.
+  - cbn [nw_edepots Lnet] in Hn. unfold Lsrt in Hn. apply sort_by_in in Hn. unfold Ledeps in Hn.
+    apply in_map_iff in Hn. destruct Hn as ([[d s0] en] & <- & Hd). unfold Ldnodes in Hd.
+    apply in_map_iff in Hd. destruct Hd as ([k d'] & Ed & Hk). injection Ed as E1 E2 E3; subst d' s0 en. cbv beta iota.
+    destruct (dnodes_lookup (Ldepots i perm trips) 0 (Ldepots_idx i perm trips) k d Hk) as [Ik A].
+    assert (Nd : nd (Lnet i perm trips p0 p1) (ED (2 * Z.of_nat k + 1)) = NEnd {| dn_depot := dp_idx d; dn_loc := dp_loc d |}).
+    { apply Lnd. unfold Lnodes. rewrite !in_app_iff. left. unfold Ldentries. apply in_flat_map.
+      exists (d, SD (2 * Z.of_nat k), ED (2 * Z.of_nat k + 1)). split; [apply K; exact Hk|right; left; reflexivity]. }
+    change (get_end_depot_node (Lnet i perm trips p0 p1)
+              (get_depot_idx (Lnet i perm trips p0 p1) (ED (2 * Z.of_nat k + 1))) = ED (2 * Z.of_nat k + 1)).
+    unfold get_depot_idx. rewrite Nd. cbn [dn_depot]. unfold get_end_depot_node, depot_entry.
+    cbn [nw_depots Lnet]. unfold Ldentry, Ldnodes. rewrite A. reflexivity.
+Qed.
+
 Print Assumptions render_C03_under_listed.
 Print Assumptions render_C03_partial.
 Print Assumptions render_C03_refuted.
+Print Assumptions load_services_listed.
+Print Assumptions load_depot_table_ok.
+Print Assumptions render_C03_306_needs_ends_listed.
